@@ -377,6 +377,27 @@ func PropC04(c *vs.Case, f Factory) error {
 						continue // adoption / release edit, happens before the hook is consulted
 					}
 				}
+				if r.Verb == "update" && !r.Accepted() && r.Body != nil {
+					// a refused adoption / release edit (the object changed or vanished meanwhile): judged by what was sent
+					// (what was sent is the object just read - a read-modify-write - or, failing that, the cached one)
+					basis := FindIn(t.PreCache[r.Def.Resource], r.Body)
+					for _, g := range t.Reqs {
+						if g == r {
+							break
+						}
+						if g.Verb == "get" && g.Def.Resource == r.Def.Resource && g.Name == r.Name && g.Namespace == r.Namespace && g.Code == 200 && g.Post != nil {
+							basis = g.Post
+						}
+					}
+					if cached := basis; cached != nil {
+						a, b := stripServerFields(cached), stripServerFields(r.Body)
+						delete(a["metadata"].(map[string]any), "ownerReferences")
+						delete(b["metadata"].(map[string]any), "ownerReferences")
+						if vs.JSONEqual(a, b) {
+							continue
+						}
+					}
+				}
 				contentWrites++
 			}
 			switch {
